@@ -166,3 +166,79 @@ let run (id : string) (ops : string list) (out : out_channel) =
     | _ -> failwith ("Lip6 op: " ^ op)) ops
 
 let registered = Registry.register "Lip6" run
+
+(* ---- extraction cross-check inside Coq (see c18.ml): every model call this glue makes for the ops of a
+   sampled case (IPv6 header and extension-header decode with what the glue reads from the layer,
+   serialize, ipproto_layertype), restated as a Gallina term and recomputed by vm_compute, must give
+   the value the extracted code computed here. *)
+let coq_tlv (t : M.tlv) =
+  Printf.sprintf "mkTlv %s %s %s %s %s %s" (coq_z t.M.t_type) (coq_z t.M.t_olen) (coq_z t.M.t_alen) (coq_zlist t.M.t_data) (coq_z t.M.t_ax) (coq_z t.M.t_ay)
+let coq_ext (h : M.ext) =
+  Printf.sprintf "(mkExt %s %s %s %s %s %s)" (coq_z h.M.e_next) (coq_z h.M.e_hlen) (coq_z h.M.e_alen) (coq_list coq_tlv h.M.e_opts)
+    (coq_zlist h.M.e_contents) (coq_zlist h.M.e_payload)
+let coq_ip6 (l : M.ip6) =
+  Printf.sprintf "(mkIp6 %s %s %s %s %s %s %s %s %s %s %s)" (coq_z l.M.p_version) (coq_z l.M.p_tclass) (coq_z l.M.p_flow) (coq_z l.M.p_length)
+    (coq_z l.M.p_next) (coq_z l.M.p_hop) (coq_zlist l.M.p_src) (coq_zlist l.M.p_dst) (coq_option coq_ext l.M.p_hbh)
+    (coq_zlist l.M.p_contents) (coq_zlist l.M.p_payload)
+
+let to_coq (idx : int) (ops : string list) (out : out_channel) =
+  let n = ref 0 in
+  let name () = incr n; Printf.sprintf "sample_%d_%d" idx !n in
+  let small h = String.length h <= 300 && not (String.length h > 0 && h.[0] = '*') in
+  let dec_ip (olds : string) (old : M.ip6) (d : BinNums.coq_Z list) =
+    let ((l, r), tr) = M.ip6_decode_into old d in
+    coq_example_named out (name ())
+      (Printf.sprintf "(let r := ip6_decode_into %s %s in let l := fst (fst r) in (r, ip6_next l, ip6_render_panics l, ip6_flow_panics l))" olds (coq_zlist d))
+      (Printf.sprintf "(%s, %s, %s, %s, %s, %s)" (coq_ip6 l) (coq_outcome coq_unit r) (coq_bool tr) (coq_z (M.ip6_next l))
+         (coq_bool (M.ip6_render_panics l)) (coq_bool (M.ip6_flow_panics l))); l in
+  let dec_ext (olds : string) (old : M.ext) (d : BinNums.coq_Z list) =
+    let ((h, r), tr) = M.ext_decode_into old d in
+    coq_example_named out (name ())
+      (Printf.sprintf "(let r := ext_decode_into %s %s in (r, ext_render_panics (fst (fst r))))" olds (coq_zlist d))
+      (Printf.sprintf "(%s, %s, %s, %s)" (coq_ext h) (coq_outcome coq_unit r) (coq_bool tr) (coq_bool (M.ext_render_panics h))); h in
+  let junk_term mode = if mode = 1 then "(repeat 170%Z 4096%nat)" else "[]" in
+  let ser_ip (l : M.ip6) p fix csum mode =
+    let r = M.ip6_serialize l p fix csum (junk_of mode junk_need) in
+    coq_example_named out (name ()) (Printf.sprintf "ip6_serialize %s %s %s %s %s" (coq_ip6 l) (coq_zlist p) (coq_bool fix) (coq_bool csum) (junk_term mode))
+      (coq_pair (coq_outcome coq_zlist) coq_ip6 r); r in
+  let ser_ext (h : M.ext) p fix csum mode =
+    let r = M.ext_serialize h p fix csum (junk_of mode junk_need) in
+    coq_example_named out (name ()) (Printf.sprintf "ext_serialize %s %s %s %s %s" (coq_ext h) (coq_zlist p) (coq_bool fix) (coq_bool csum) (junk_term mode))
+      (coq_pair (coq_outcome coq_zlist) coq_ext r); r in
+  Stdlib.List.iter (fun op ->
+    let (nm, a) = args_of op in
+    let arg i = if i < Array.length a then a.(i) else "" in
+    let isip = (arg 0 = "ip6") in
+    if !n < 6 then
+    match nm with
+    | "nlt" -> let x = zs (arg 0) in coq_example_named out (name ()) ("ipproto_layertype " ^ coq_z x) (coq_z (M.ipproto_layertype x))
+    | "dec" when small (arg 1) ->
+      if isip then ignore (dec_ip "ip6_fresh" M.ip6_fresh (bytes_of_hex (arg 1))) else ignore (dec_ext "ext_fresh" M.ext_fresh (bytes_of_hex (arg 1)))
+    | "dec2" when small (arg 1) && small (arg 2) ->
+      if isip then (let l = dec_ip "ip6_fresh" M.ip6_fresh (bytes_of_hex (arg 1)) in ignore (dec_ip (coq_ip6 l) l (bytes_of_hex (arg 2))))
+      else (let h = dec_ext "ext_fresh" M.ext_fresh (bytes_of_hex (arg 1)) in ignore (dec_ext (coq_ext h) h (bytes_of_hex (arg 2))))
+    | "ser" | "nser" ->
+      let (src, fcd, payload) = if nm = "ser" then (arg 1, arg 2, arg 3) else (arg 3, arg 1, arg 2) in
+      if small payload && small src then begin
+        let (fix, csum, mode) = flags fcd in
+        if isip then
+          let l = if nm = "ser" then (let ((l, _), _) = M.ip6_decode_into M.ip6_fresh (bytes_of_hex src) in l) else build_ip6 src in
+          ignore (ser_ip l (payload_of payload) fix csum mode)
+        else
+          let h = if nm = "ser" then (let ((h, _), _) = M.ext_decode_into M.ext_fresh (bytes_of_hex src) in h) else build_ext src in
+          ignore (ser_ext h (payload_of payload) fix csum mode)
+      end
+    | "rt" | "nrt" ->
+      let (src, payload) = if nm = "rt" then (arg 1, arg 2) else (arg 2, arg 1) in
+      if small payload && small src then begin
+        if isip then
+          let l = if nm = "rt" then (let ((l, _), _) = M.ip6_decode_into M.ip6_fresh (bytes_of_hex src) in l) else build_ip6 src in
+          (match ser_ip l (payload_of payload) true true 0 with
+           | (Base.Ok b, _) -> ignore (dec_ip "ip6_fresh" M.ip6_fresh b) | _ -> ())
+        else
+          let h = if nm = "rt" then (let ((h, _), _) = M.ext_decode_into M.ext_fresh (bytes_of_hex src) in h) else build_ext src in
+          (match ser_ext h (payload_of payload) true true 0 with
+           | (Base.Ok b, _) -> ignore (dec_ext "ext_fresh" M.ext_fresh b) | _ -> ())
+      end
+    | _ -> ()) ops
+let registered_coq = Registry.register_coq "Lip6" ("From GP Require Import Base N6Lib Lip6Model.\n", to_coq)
